@@ -7,6 +7,8 @@
 (*     ret     return values (none, one, several)                             *)
 (*     func    a JavaScript function passed for a Go func parameter           *)
 (*     back    a bridged struct passed back to Go                             *)
+(*     graph   shared and cyclic script data through every conversion entry   *)
+(*     reent   script code run by the conversion of an argument calls again   *)
 (*  Mode = "slice" | "map" | "mapint" | "struct": a live container as a state *)
 (*     machine: the strict state st and the state lt under the known          *)
 (*     deviations evolve together; every transition is printed with its path  *)
@@ -15,7 +17,7 @@
 (*     view of the container.  Invariant SameContents: for addressable        *)
 (*     containers the two views of the strict model are the same contents.    *)
 EXTENDS Json, SequencesExt, Randomization
-CONSTANTS OpenDev, Tier, Mode, MaxLen, Wide
+CONSTANTS OpenDev, Tier, Mode, MaxLen, Wide, Seed
 VARIABLES blk, cs, st, lt, hist, cont
 
 S == INSTANCE Bridge WITH Dev <- {}
@@ -173,9 +175,244 @@ PFields == {[fam |-> "pfield", where |-> w, sel |-> sel, d |-> Doc0] : w \in {"p
 TagNames == {<<80, 108, 97, 105, 110>>, <<78, 97, 109, 101, 100>>, <<79, 109, 105, 116>>, <<83, 116, 114>>, <<75, 101, 101, 112, 78, 97, 109, 101>>, <<68, 97, 115, 104>>, <<68, 97, 115, 104, 67, 111, 109, 109, 97>>, <<110>>, <<99, 111, 117, 110, 116>>, <<115>>, <<45>>, <<99, 111, 117, 110, 116, 44, 111, 109, 105, 116, 101, 109, 112, 116, 121>>, <<>>, <<44, 111, 109, 105, 116, 101, 109, 112, 116, 121>>, <<45, 44>>, <<112, 108, 97, 105, 110>>, <<111, 109, 105, 116>>, <<78>>, <<67, 111, 117, 110, 116>>, <<115, 44, 115, 116, 114, 105, 110, 103>>, <<115, 116, 114, 105, 110, 103>>, <<111, 109, 105, 116, 101, 109, 112, 116, 121>>}
 TagFields == {[fam |-> "tagfield", mode |-> m, name |-> n] : m \in {"read", "write", "param"}, n \in TagNames}
 
+(* ---- shared and cyclic script data through EVERY script -> Go conversion entry ---------------------- *)
+(* (fifth wave: a change that left a homogeneous array in the `active` set of Value.export was missed -   *)
+(* every generated argument was a TREE).  A script value is a graph: containers n1 (the value handed to   *)
+(* Go), n2, n3 (the "row") and n4 (a leaf row); a member is a primitive or a reference.  Sharing is       *)
+(* invisible to the conversion (the Go value is the tree unfolding, built element-wise), a reference back *)
+(* to a container whose export is in progress is nil (Bridge!ExportNode).  Product: reference structure   *)
+(* of n1/n2 x content class of the row x entry point of the conversion.                                   *)
+Ref(i) == [t |-> "ref", i |-> i]
+GNode(kind, vals) == [kind |-> kind, keys |-> [i \in 1..Len(vals) |-> IF i = 1 THEN K_a ELSE K_b], vals |-> vals]
+GRows == {GNode("arr", <<IntV(1), IntV(2)>>), GNode("arr", <<StrV(K_a), StrV(K_b)>>), GNode("arr", <<S!BoolV(TRUE), S!BoolV(FALSE)>>),
+          GNode("arr", <<NumV(OneHalf), NumV(Half)>>), GNode("arr", <<IntV(1)>>), GNode("arr", <<>>), GNode("arr", <<IntV(1), StrV(K_a)>>),
+          GNode("arr", <<S!Null>>), GNode("arr", <<Ref(4), Ref(4)>>), GNode("arr", <<Ref(1)>>), GNode("arr", <<IntV(1), Ref(3)>>),
+          GNode("obj", <<IntV(1)>>), GNode("obj", <<>>), GNode("obj", <<Ref(4), Ref(4)>>), GNode("obj", <<Ref(1)>>)}
+GLeaf == GNode("arr", <<IntV(3)>>)
+GSlot1 == {IntV(1), Ref(1), Ref(2), Ref(3)}
+GSlot2 == {IntV(1), Ref(1), Ref(3)}
+GUses(vals, i) == \E j \in 1..Len(vals) : vals[j] = Ref(i)
+(* canonical graphs only: an unreferenced n2 / row has one representative *)
+Graphs == {<<GNode(k1, <<a, b>>), GNode(k2, <<c>>), row, GLeaf>> :
+              k1 \in {"arr", "obj"}, a \in GSlot1, b \in GSlot1, k2 \in {"arr", "obj"}, c \in GSlot2, row \in GRows}
+GraphsCanon == {g \in Graphs :
+                   /\ (GUses(g[1].vals, 2) \/ (g[2] = GNode("arr", <<IntV(1)>>)))
+                   /\ (GUses(g[1].vals, 3) \/ (GUses(g[1].vals, 2) /\ GUses(g[2].vals, 3)) \/ g[3] = GNode("arr", <<>>))}
+GraphSeq == SetToSeq(GraphsCanon)
+TFunc0 == [k |-> "func0"]                 \* func() interface{}
+GEntrySeq == <<"p_iface", "p_two", "p_var", "p_var1", "p_slice", "p_map", "p_struct", "p_ptr", "p_func", "p_sl2", "p_slsl", "p_mapsl", "p_mapmap",
+               "w_slice", "w_array", "w_map", "w_struct">>
+GEntrySig(e) == CASE e = "p_iface" -> Sig(<<TK("iface")>>, FALSE) [] e = "p_two" -> Sig(<<TK("iface"), TK("iface")>>, FALSE)
+                  [] e \in {"p_var", "p_var1"} -> Sig(<<TK("iface")>>, TRUE)
+                  [] e = "p_slice" -> Sig(<<S!TSl(TK("iface"))>>, FALSE) [] e = "p_map" -> Sig(<<S!TMp(TK("iface"))>>, FALSE)
+                  [] e = "p_struct" -> Sig(<<TK("struct")>>, FALSE) [] e = "p_ptr" -> Sig(<<TK("ptr")>>, FALSE)
+                  [] e = "p_func" -> Sig(<<TFunc0>>, FALSE)
+                  [] e = "p_sl2" -> Sig(<<S!TSl(S!TSl(TK("iface")))>>, FALSE) [] e = "p_slsl" -> Sig(<<S!TSl(S!TSl(TK("int")))>>, FALSE)
+                  [] e = "p_mapsl" -> Sig(<<S!TMp(S!TSl(TK("int")))>>, FALSE) [] e = "p_mapmap" -> Sig(<<S!TMp(S!TMp(TK("iface")))>>, FALSE)
+                  [] OTHER -> Sig(<<>>, FALSE)
+GEntryRoot(e) == CASE e \in {"p_slice", "p_sl2", "p_slsl"} -> {"arr"} [] e \in {"p_map", "p_mapsl", "p_mapmap"} -> {"obj"} [] OTHER -> {"arr", "obj"}
+NGraph == Len(GraphSeq) * Len(GEntrySeq)
+GraphCase(j) == LET e == GEntrySeq[((j - 1) % Len(GEntrySeq)) + 1] IN
+                [fam |-> "graph", entry |-> e, sig |-> GEntrySig(e), nodes |-> GraphSeq[((j - 1) \div Len(GEntrySeq)) + 1]]
+(* quick tier: a sample of the product fixed by the seed; thorough: all of it *)
+GraphPicked(j) == Wide \/ ((j * 7919 + Seed * 31) % 1009) % 6 = 0
+(* the conversion of a graph member to a parameter type, element-wise (the typed levels keep no record of *)
+(* what is in progress: the recursion ends with the type); "unmodelled": a map parameter built from an    *)
+(* Array, strings and bools from containers - such cases are not generated                                *)
+RECURSIVE GConv(_, _, _)
+GConv(ns, v, ty) ==
+    IF v.t # "ref" THEN S!ConvertParam(v, ty)
+    ELSE LET nd == ns[v.i] IN
+         CASE ty.k = "iface" -> S!POK(S!GX(S!ExportNode(ns, v.i, {})))
+           [] ty.k \in S!NumKinds -> S!PErr("TypeError")
+           [] ty.k = "slice" ->
+                 IF nd.kind # "arr" THEN S!PErr("TypeError")
+                 ELSE LET rs == [i \in 1..Len(nd.vals) |-> GConv(ns, nd.vals[i], ty.e)]
+                          bad == S!FirstBad(rs)
+                      IN  IF bad # <<>> THEN S!PErr(rs[bad[1]].thr)
+                          ELSE S!POK([k |-> "slice", items |-> [i \in 1..Len(rs) |-> rs[i].g]])
+           [] ty.k = "map" ->
+                 IF nd.kind # "obj" THEN S!PErr("unmodelled")
+                 ELSE LET rs == [i \in 1..Len(nd.vals) |-> GConv(ns, nd.vals[i], ty.e)]
+                          bad == S!FirstBad(rs)
+                      IN  IF bad # <<>> THEN S!PErr(rs[bad[1]].thr)
+                          ELSE S!POK([k |-> "map", keys |-> nd.keys, vals |-> [i \in 1..Len(rs) |-> rs[i].g]])
+           [] OTHER -> S!PErr("unmodelled")
+GraphExpect(c) ==
+    LET ns == c.nodes
+        x == S!GX(S!ExportNode(ns, 1, {}))
+        zs == [S!ZeroStruct EXCEPT !.Any = x]
+        one(r) == IF r.thr # "" THEN [thr |-> r.thr] ELSE [thr |-> "", g |-> <<r.g>>]
+    IN  CASE c.entry \in {"p_iface", "p_func"} -> [thr |-> "", g |-> <<x>>]
+          [] c.entry = "p_two" -> [thr |-> "", g |-> <<x, x>>]
+          [] c.entry = "p_var" -> [thr |-> "", g |-> <<[k |-> "slice", items |-> <<x, x>>]>>]
+          [] c.entry = "p_var1" ->      \* exactly as many arguments as parameters: an Array is taken as the tail, element-wise
+                IF ns[1].kind = "arr" THEN one(GConv(ns, Ref(1), S!TSl(TK("iface")))) ELSE [thr |-> "", g |-> <<[k |-> "slice", items |-> <<x>>]>>]
+          [] c.entry = "p_struct" -> [thr |-> "", g |-> <<zs>>]
+          [] c.entry = "p_ptr" -> [thr |-> "", g |-> <<[k |-> "ptr", to |-> zs]>>]
+          [] c.entry \in {"w_slice", "w_array", "w_map", "w_struct"} -> [thr |-> "", elem |-> x, js |-> S!ElemJS(x)]
+          [] OTHER -> one(GConv(ns, Ref(1), c.sig.ins[1]))
+GraphOK(j) == LET c == GraphCase(j) IN c.nodes[1].kind \in GEntryRoot(c.entry) /\ GraphExpect(c).thr # "unmodelled"
+NodeName(i) == "n" \o ToString(i)
+MemberJs(v) == IF v.t = "ref" THEN <<NodeName(v.i)>> ELSE <<[lit |-> v]>>
+RECURSIVE FillJs(_, _, _)
+FillJs(nd, i, j) == IF j > Len(nd.vals) THEN <<>>
+                    ELSE (IF nd.kind = "arr" THEN <<NodeName(i) \o ".push(">> \o MemberJs(nd.vals[j]) \o <<"); ">>
+                          ELSE <<NodeName(i) \o "[">> \o <<[lit |-> StrV(nd.keys[j])]>> \o <<"] = ">> \o MemberJs(nd.vals[j]) \o <<"; ">>)
+                         \o FillJs(nd, i, j + 1)
+DeclJs(nd, i) == NodeName(i) \o (IF nd.kind = "arr" THEN " = []" ELSE " = {}")
+GraphJs(c) ==
+    LET ns == c.nodes IN
+    <<"(function(){ var " \o DeclJs(ns[1], 1) \o ", " \o DeclJs(ns[2], 2) \o ", " \o DeclJs(ns[3], 3) \o ", " \o DeclJs(ns[4], 4) \o "; ">>
+    \o FillJs(ns[4], 4, 1) \o FillJs(ns[3], 3, 1) \o FillJs(ns[2], 2, 1) \o FillJs(ns[1], 1, 1)
+    \o <<CASE c.entry \in {"p_two", "p_var"} -> "P(n1, n1);"
+           [] c.entry \in {"p_struct", "p_ptr"} -> "P({Any: n1});"
+           [] c.entry = "p_func" -> "P(function(){ return n1; });"
+           [] c.entry \in {"w_slice", "w_array"} -> "c[0] = n1;"
+           [] c.entry = "w_map" -> "c['a'] = n1;"
+           [] c.entry = "w_struct" -> "c.Any = n1;"
+           [] OTHER -> "P(n1);">>
+    \o <<" })()">>
+
+(* ---- re-entrant calls: script code that runs WHILE the arguments of a bridged call are converted ---- *)
+(* (fifth wave: a change that shared the argument buffer between the activations of one wrapper was       *)
+(* missed - no generated argument ran script code that called a bridged function).  Script code runs      *)
+(* inside a call of a Go function when an argument is converted: toString of an object for a string       *)
+(* parameter (also of an element while an Array is joined), an accessor property read while a struct, a   *)
+(* map or an interface{} value is built member-wise, an accessor element of an Array for a slice, and a   *)
+(* JavaScript function passed for a func parameter when the callee calls it.  That code calls a bridged   *)
+(* function again (the same wrapper, a second wrapper of the same Go function, another function; with a   *)
+(* valid or an invalid argument count; caught or not; one level deeper).  Every activation must receive   *)
+(* exactly its own arguments and return its own result: the Go callees record what arrives, in the order  *)
+(* in which they complete.                                                                                 *)
+(*   call = [f |-> name, args |-> <<value | hook>>]                                                       *)
+(*   hook = [t |-> "hook", hk |-> "tostr"|"join"|"getter"|"elem"|"cb", call |-> call | NoCall,             *)
+(*           catch |-> BOOLEAN, ret |-> value the script code returns]                                    *)
+TFuncI == [k |-> "func"]                  \* func(int) int, called by the callee with 3
+NoCall == [f |-> "none"]
+ReSig(f) == CASE f \in {"F", "F2", "G"} -> Sig(<<TK("string"), TK("string"), TK("string")>>, FALSE)
+              [] f = "V" -> Sig(<<TK("string"), TK("string")>>, TRUE)
+              [] f = "M" -> Sig(<<TK("string"), TK("struct"), S!TSl(TK("int")), TK("iface")>>, FALSE)
+              [] f = "K" -> Sig(<<TK("string"), TFuncI, TK("string")>>, FALSE)
+ReGo(f) == IF f = "F2" THEN "F" ELSE f           \* F2 is a second wrapper of the Go function behind F
+ReFns == {"F", "F2", "G", "V", "M", "K"}
+ReTyAt(f, p) == LET s == ReSig(f) IN IF p > Len(s.ins) THEN s.ins[Len(s.ins)] ELSE s.ins[p]
+Hook(hk, call, catch, ret) == [t |-> "hook", hk |-> hk, call |-> call, catch |-> catch, ret |-> ret]
+LvlUnit(lvl) == CASE lvl = 0 -> 111 [] lvl = 1 -> 105 [] OTHER -> 106              \* o, i, j
+RePlain(ty, lvl, p) == CASE ty.k = "string" -> StrV(<<LvlUnit(lvl), 48 + p>>)
+                         [] ty.k = "struct" -> O(<<S!S_A>>, <<IntV(10 * lvl + p)>>)
+                         [] ty.k = "slice" -> A(<<IntV(10 * lvl + p)>>)
+                         [] ty.k = "func" -> Hook("cb", NoCall, FALSE, IntV(10 * lvl + p))
+                         [] OTHER -> IntV(10 * lvl + p)
+RePlainCall(f, m, lvl) == [f |-> f, args |-> [p \in 1..m |-> RePlain(ReTyAt(f, p), lvl, p)]]
+ReCounts(f) == IF f = "V" THEN {1, 2, 3} ELSE {Len(ReSig(f).ins)}
+ReBadCounts(f) == IF f = "V" THEN {0} ELSE {Len(ReSig(f).ins) - 1}
+ReHKs(ty) == CASE ty.k = "string" -> {"tostr", "join"} [] ty.k = "struct" -> {"getter"} [] ty.k = "slice" -> {"elem"}
+               [] ty.k = "func" -> {"cb"} [] OTHER -> {"getter", "elem"}
+ReRets(hk, ty) == CASE hk = "tostr" -> <<StrV(<<114>>), IntV(5)>> [] hk = "join" -> <<StrV(<<114>>)>>
+                    [] hk = "getter" -> (IF ty.k = "struct" THEN <<IntV(7), NumV(OneHalf)>> ELSE <<IntV(7)>>)
+                    [] hk = "elem" -> (IF ty.k = "slice" THEN <<IntV(7), StrV(<<120>>)>> ELSE <<IntV(7)>>)
+                    [] hk = "cb" -> <<IntV(4), StrV(K_a)>>
+ReRetSet(hk, ty) == {ReRets(hk, ty)[i] : i \in 1..Len(ReRets(hk, ty))}
+ReOuter == {<<"F", 3>>, <<"V", 1>>, <<"V", 2>>, <<"V", 3>>, <<"M", 4>>, <<"K", 3>>}
+(* the calls made from inside the script code: every function, valid counts; invalid counts caught and not *)
+ReLeafOK(lvl) == {[call |-> RePlainCall(g, m, lvl), catch |-> FALSE] : g \in ReFns, m \in {1, 2, 3, 4}}
+ReLeafBad(lvl) == {[call |-> RePlainCall(g, m, lvl), catch |-> ct] : g \in ReFns, m \in {0, 2, 3}, ct \in BOOLEAN}
+ReLeaves(lvl) == {x \in ReLeafOK(lvl) : Len(x.call.args) \in ReCounts(x.call.f)} \cup {x \in ReLeafBad(lvl) : Len(x.call.args) \in ReBadCounts(x.call.f)}
+WithHook(call, p, h) == [call EXCEPT !.args[p] = h]
+(* one hook: outer function x position x kind of script code x what it returns x the call it makes (or none) *)
+ReOne == UNION {UNION {UNION {
+            {[fam |-> "reent", call |-> WithHook(RePlainCall(fm[1], fm[2], 0), p, Hook(hk, NoCall, FALSE, ret))] : ret \in ReRetSet(hk, ReTyAt(fm[1], p))}
+            \cup {[fam |-> "reent", call |-> WithHook(RePlainCall(fm[1], fm[2], 0), p, Hook(hk, lf.call, lf.catch, ret))] :
+                     ret \in ReRetSet(hk, ReTyAt(fm[1], p)), lf \in ReLeaves(1)}
+            : hk \in ReHKs(ReTyAt(fm[1], p))} : p \in 1..fm[2]} : fm \in ReOuter}
+(* one level deeper: the call made by the script code has itself an argument whose conversion calls again *)
+ReTwo == UNION {UNION {UNION {UNION {
+            {[fam |-> "reent", call |-> WithHook(RePlainCall(fm[1], fm[2], 0), p, Hook(hk, WithHook(RePlainCall(fm[1], fm[2], 1), q, Hook(hk2, RePlainCall(h, Len(ReSig(h).ins), 2), FALSE, ReRets(hk2, ReTyAt(fm[1], q))[1])),
+                                                                                     FALSE, ReRets(hk, ReTyAt(fm[1], p))[1]))] :
+                 hk2 \in ReHKs(ReTyAt(fm[1], q)), h \in {fm[1], "G"}}
+            : q \in 1..fm[2]} : hk \in ReHKs(ReTyAt(fm[1], p))} : p \in 1..fm[2]} : fm \in {<<"F", 3>>, <<"V", 2>>, <<"M", 4>>, <<"K", 3>>}}
+(* two arguments of one call run script code: left to right (a callback runs when the callee calls it) *)
+RePair == UNION {UNION {
+            {[fam |-> "reent", call |-> WithHook(WithHook(RePlainCall(f, Len(ReSig(f).ins), 0), p, Hook(hk, RePlainCall(f, Len(ReSig(f).ins), 1), FALSE, ReRets(hk, ReTyAt(f, p))[1])),
+                                                 q, Hook(hk2, RePlainCall(f, Len(ReSig(f).ins), 2), FALSE, ReRets(hk2, ReTyAt(f, q))[1]))] :
+                 hk \in ReHKs(ReTyAt(f, p)), hk2 \in ReHKs(ReTyAt(f, q))}
+            : p \in 1..Len(ReSig(f).ins), q \in 1..Len(ReSig(f).ins)} : f \in {"F", "M", "K"}}
+RePairOK == {c \in RePair : \E p \in 1..Len(c.call.args), q \in 1..Len(c.call.args) : p < q /\ c.call.args[p].t = "hook" /\ c.call.args[p].call # NoCall
+                                                                                      /\ c.call.args[q].t = "hook" /\ c.call.args[q].call # NoCall}
+(* not generated: a join whose script code fails, uncaught, in the last argument of a variadic call with exactly as many  *)
+(* arguments as parameters - the attempt to take the Array as the tail and the fallback each run the script code          *)
+ReAmbiguous(c) == LET s == ReSig(c.call.f)  m == Len(c.call.args) IN
+                  s.variadic /\ m = Len(s.ins) /\ c.call.args[m].t = "hook" /\ c.call.args[m].hk = "join"
+                  /\ c.call.args[m].call # NoCall /\ ~c.call.args[m].catch /\ Len(c.call.args[m].call.args) \in ReBadCounts(c.call.args[m].call.f)
+(* the registered functions, for the harness: JavaScript name, Go function behind it, signature *)
+ReFnTable == [i \in 1..6 |-> LET f == <<"F", "F2", "G", "V", "M", "K">>[i] IN [name |-> f, go |-> ReGo(f), sig |-> ReSig(f)]]
+Reents == {[fam |-> "reent", call |-> c.call, fns |-> ReFnTable] : c \in {c \in ReOne : ~ReAmbiguous(c)} \cup ReTwo \cup RePairOK}
+
+(* what the conversion sees of an argument whose conversion ran script code *)
+ReEff(a) == IF a.t # "hook" THEN a
+            ELSE CASE a.hk \in {"tostr", "cb"} -> a.ret
+                   [] a.hk = "join" -> A(<<StrV(<<112>>), a.ret>>)
+                   [] a.hk = "getter" -> O(<<S!S_A, S!S_B>>, <<a.ret, StrV(<<112, 98>>)>>)
+                   [] a.hk = "elem" -> A(<<IntV(5), a.ret>>)
+ReModelSig(s) == [s EXCEPT !.ins = [i \in 1..Len(s.ins) |-> IF s.ins[i].k = "func" THEN TK("int") ELSE s.ins[i]]]
+(* an exception of the script code as the calling script sees it: a failing toString makes the conversion *)
+(* fail (TypeError); an accessor's or a callback's exception is the exception of the call (8.12.3)         *)
+ReHookThr(hk, thr) == IF hk \in {"tostr", "join"} THEN "TypeError" ELSE thr
+RECURSIVE ReCall(_, _, _)
+RECURSIVE ReFire(_, _, _, _, _)
+(* ss = [log |-> records of completed Go calls, res |-> what the script pushed]; cbs: the callbacks (TRUE) or the conversions (FALSE) *)
+ReFire(dv, args, i, ss, cbs) ==
+    IF i > Len(args) THEN [thr |-> "", st |-> ss]
+    ELSE IF args[i].t = "hook" /\ args[i].call # NoCall /\ ((args[i].hk = "cb") = cbs)
+    THEN LET h == args[i]
+             r == ReCall(dv, h.call, ss)
+         IN  IF r.thr = "" THEN ReFire(dv, args, i + 1, [log |-> r.st.log, res |-> Append(r.st.res, ToString(r.ret))], cbs)
+             ELSE IF h.catch THEN ReFire(dv, args, i + 1, [log |-> r.st.log, res |-> Append(r.st.res, r.thr)], cbs)
+             ELSE [thr |-> ReHookThr(h.hk, r.thr), st |-> r.st]
+    ELSE ReFire(dv, args, i + 1, ss, cbs)
+ReCall(dv, call, ss) ==
+    LET sig == ReSig(call.f)  n == Len(sig.ins)  m == Len(call.args)
+        arityOK == IF sig.variadic THEN m >= n - 1 ELSE m = n
+        fail(thr, s) == [thr |-> thr, st |-> s, ret |-> 0]
+    IN  IF ~arityOK THEN fail("RangeError", ss)                    \* reported before any argument is converted
+        ELSE LET h1 == ReFire(dv, call.args, 1, ss, FALSE)         \* the arguments are converted left to right
+             IN  IF h1.thr # "" THEN fail(h1.thr, h1.st)
+                 ELSE LET eff == [i \in 1..m |-> ReEff(call.args[i])]
+                          conv(e) == IF dv THEN L!ConvertArgs(e, ReModelSig(sig)) ELSE S!ConvertArgs(e, ReModelSig(sig))
+                          \* the arguments other than callbacks: a failure there ends the call before the callee runs
+                          pre == conv([i \in 1..m |-> IF call.args[i].t = "hook" /\ call.args[i].hk = "cb" THEN IntV(0) ELSE eff[i]])
+                      IN  IF pre.thr # "" THEN fail(pre.thr, h1.st)
+                          ELSE LET h2 == ReFire(dv, call.args, 1, h1.st, TRUE)       \* the callee runs: it calls its callbacks
+                               IN  IF h2.thr # "" THEN fail(h2.thr, h2.st)
+                                   ELSE LET r == conv(eff)
+                                        IN  IF r.thr # "" THEN fail(r.thr, h2.st)
+                                            ELSE [thr |-> "", ret |-> Len(h2.st.log) + 1,
+                                                  st |-> [h2.st EXCEPT !.log = Append(@, [f |-> ReGo(call.f), g |-> r.g])]]
+ReExpect(dv, c) == LET r == ReCall(dv, c.call, [log |-> <<>>, res |-> <<>>])
+                   IN  [thr |-> r.thr, log |-> r.st.log, res |-> IF r.thr = "" THEN Append(r.st.res, ToString(r.ret)) ELSE r.st.res]
+RECURSIVE ReCallJs(_)
+RECURSIVE ReArgsJs(_, _)
+ReHookJs(h) ==
+    LET inner == IF h.call = NoCall THEN <<>>
+                 ELSE IF h.catch THEN <<"try { ">> \o ReCallJs(h.call) \o <<"; } catch (e) { RES.push(CLS(e)); } ">>
+                 ELSE ReCallJs(h.call) \o <<"; ">>
+        body == inner \o <<"return ">> \o JsParts(h.ret) \o <<"; ">>
+    IN  CASE h.hk = "tostr" -> <<"({toString: function(){ ">> \o body \o <<"}})">>
+          [] h.hk = "join" -> <<"['p', {toString: function(){ ">> \o body \o <<"}}]">>
+          [] h.hk = "getter" -> <<"(function(){ var o = {}; Object.defineProperty(o, 'A', {enumerable: true, configurable: true, get: function(){ ">> \o body \o <<"}}); o.B = 'pb'; return o; })()">>
+          [] h.hk = "elem" -> <<"(function(){ var a = [5]; Object.defineProperty(a, '1', {enumerable: true, configurable: true, get: function(){ ">> \o body \o <<"}}); return a; })()">>
+          [] h.hk = "cb" -> <<"(function(x){ ">> \o body \o <<"})">>
+ReArgsJs(args, i) == IF i > Len(args) THEN <<>>
+                     ELSE (IF i > 1 THEN <<", ">> ELSE <<>>) \o (IF args[i].t = "hook" THEN ReHookJs(args[i]) ELSE JsParts(args[i])) \o ReArgsJs(args, i + 1)
+ReCallJs(call) == <<"RES.push(String(" \o call.f \o "(">> \o ReArgsJs(call.args, 1) \o <<")))">>
+ReSeq == SetToSeq(Reents)
+
 AllCases == Params \cup Arities \cup Rets \cup Funcs \cup Backs \cup ElemWsOK \cup PFields \cup TagFields
 
 Js(c) == CASE c.fam \in {"param", "elemw"} -> JsParts(c.v)
+           [] c.fam = "graph" -> GraphJs(c)
+           [] c.fam = "reent" -> ReCallJs(c.call)
            [] c.fam = "arity" -> JsItems(c.args, 1)
            [] c.fam = "func" -> (IF c.body.b = "ret" THEN <<"(function(x){ SEEN = OBS(x); return ">> \o JsParts(c.body.v) \o <<"; })">>
                                  ELSE IF c.body.b = "throw" THEN <<"(function(x){ SEEN = OBS(x); throw new " \o c.body.cls \o "('z'); })">>
@@ -191,6 +428,8 @@ ExpectS(c) ==
       [] c.fam = "back" -> S!BridgedToParam(c.isptr, c.src, c.ty)
       [] c.fam = "elemw" -> (LET r == S!ElemWriteOutcome(c.v, c.k, S!GInt(c.k, I(1))) IN [thr |-> r.thr, elem |-> r.elem, js |-> S!ElemJS(r.elem)])
       [] c.fam = "tagfield" -> S!TagAccess(c.mode, c.name)
+      [] c.fam = "graph" -> GraphExpect(c)
+      [] c.fam = "reent" -> ReExpect(FALSE, c)
       [] c.fam = "pfield" -> (LET r == S!DocPtrCall(c.d, c.sel) IN [thr |-> r.thr, same |-> r.same, js |-> S!PlacedJS(c.where, r.d), go |-> r.d])
 ExpectL(c) ==
     CASE c.fam = "param" -> L!ConvertParam(c.v, c.ty)
@@ -200,6 +439,8 @@ ExpectL(c) ==
       [] c.fam = "back" -> L!BridgedToParam(c.isptr, c.src, c.ty)
       [] c.fam = "elemw" -> (LET r == L!ElemWriteOutcome(c.v, c.k, S!GInt(c.k, I(1))) IN [thr |-> r.thr, elem |-> r.elem, js |-> S!ElemJS(r.elem)])
       [] c.fam = "tagfield" -> L!TagAccess(c.mode, c.name)
+      [] c.fam = "graph" -> GraphExpect(c)         \* no open deviation touches the export of containers
+      [] c.fam = "reent" -> ReExpect(TRUE, c)
       [] c.fam = "pfield" -> (LET r == L!DocPtrCall(c.d, c.sel) IN [thr |-> r.thr, same |-> r.same, js |-> S!PlacedJS(c.where, r.d), go |-> r.d])
 FixFunc(c, r) == IF c.fam = "func" /\ c.body.b = "notfn" THEN [thr |-> "TypeError"] ELSE r
 
@@ -300,7 +541,9 @@ Init == IF Mode = "cases"
 
 NextCases == /\ cs = None
              /\ UNCHANGED <<blk, st, lt, hist, cont>>
-             /\ \E j \in {i \in 1..Len(CaseSeq) : i % K = blk - 1} : cs' = CaseSeq[j]
+             /\ \/ \E j \in {i \in 1..Len(CaseSeq) : i % K = blk - 1} : cs' = CaseSeq[j]
+                \/ \E j \in {i \in 1..Len(ReSeq) : i % K = blk - 1} : cs' = ReSeq[j]
+                \/ \E j \in {i \in 1..NGraph : i % K = blk - 1 /\ GraphPicked(i)} : GraphOK(j) /\ cs' = GraphCase(j)
 NextCont ==
     /\ Len(hist) < MaxLen
     /\ ~Terminal(st) /\ ~Terminal(lt)
